@@ -251,6 +251,59 @@ def run_histories(ctx, out):
         out.sample(dict(kind="history", base=repr(base), driver=driver, pre=pre, steps=hist), limit=8)
         shutil.rmtree(d, ignore_errors=True)
 
+    # ---- the destination cannot be opened for writing (it is a program being executed: ETXTBSY, which also stops root):
+    #      a numbered / auto overwrite renames it away first, so the history still holds; -f / --force must not change that
+    import subprocess
+    sleepbin = shutil.which("sleep")
+    nb = (4 if quick else 24) if sleepbin else 0
+    for k in range(nb):
+        d = os.path.join(d0, "busy%d" % k)
+        srcd, dstd = os.path.join(d, "s"), os.path.join(d, "t")
+        os.makedirs(srcd)
+        os.makedirs(dstd)
+        base = b"prog"
+        driver = ["parfile", "parblock"][k % 2]
+        force = [[], ["-f"], ["--force"], ["--force", "-v"]][(k // 2) % 4] if k >= 2 else ["--force"]
+        form = rng.choice(["tree", "file"])
+        elf = open(sleepbin, "rb").read()
+        version = lambda i: elf + b"\n#version %d\n" % i
+        open(os.path.join(dstd, "prog"), "wb").write(version(0))
+        os.chmod(os.path.join(dstd, "prog"), 0o755)
+        if rng.random() < 0.5:
+            open(os.path.join(dstd, "prog.~4~"), "wb").write(b"an older backup")
+        hist = []
+        for s_i in range(1, 4):
+            mode = rng.choice(["numbered", "numbered", "auto"])
+            content = version(s_i)
+            open(os.path.join(srcd, "prog"), "wb").write(content)
+            os.chmod(os.path.join(srcd, "prog"), 0o755)
+            before = dir_state(dstd)
+            proc = subprocess.Popen([os.path.join(dstd, "prog"), "30"], stdout=subprocess.DEVNULL, stderr=subprocess.DEVNULL)
+            try:
+                if form == "tree":
+                    argv = [ctx.bins["xcp"], "-r", "-T", "--driver", driver, "-w", "2", "--backup", mode] + force + [srcd, dstd]
+                else:
+                    argv = [ctx.bins["xcp"], "--driver", driver, "-w", "2", "--backup", mode] + force + [os.path.join(srcd, "prog"), os.path.join(dstd, "prog")]
+                r = xcp.run_plain(argv, d)
+            finally:
+                proc.kill()
+                proc.wait()
+            after = dir_state(dstd)
+            hist.append(dict(mode=mode, exit=r.exit))
+            rep = dict(kind="history-busy-destination", driver=driver, steps=hist, argv=argv, before=sorted(repr(x) for x in before),
+                       after=sorted(repr(x) for x in after), stderr=r.stderr[-300:],
+                       note="the destination file is being executed while it is overwritten (open for writing fails with ETXTBSY)")
+            out.case(("hist-busy", driver, tuple(force), form, k, s_i), nontrivial=True)
+            out.count("hist_busy_destination")
+            if r.exit != 0:
+                # without a backup to make (auto, none present) the create fails: a refusal, nothing to check but the frame
+                if dir_state(dstd) != before:
+                    out.violation("a refused overwrite of a busy destination changed the directory", rep)
+                break
+            if not check_step(out, base, mode, before, after, content, r.exit, rep):
+                break
+        shutil.rmtree(d, ignore_errors=True)
+
     # ---- kill points during one overwrite (-w 1: deterministic call order) ----
     nk = 3 if quick else 12
     for k in range(nk):
@@ -350,7 +403,8 @@ def run(ctx, out):
     out.rule = ("(a) is_num_backup on generated (name, candidate) byte-string pairs: prefix-related, look-alike, hidden, "
                 "trailing-dot, non-UTF-8, huge/overflowing/zero-padded/non-ASCII-digit numbers; (b) next_backup_num/has_backup "
                 "on real directories with gaps, large numbers, look-alikes; (c) histories of 2-6 real xcp copies with changing "
-                "content and mode none/auto/numbered, names reached through a directory copy so non-UTF-8 names occur; "
+                "content and mode none/auto/numbered, names reached through a directory copy so non-UTF-8 names occur; (c') histories "
+                "whose destination is a program BEING EXECUTED (cannot be opened for writing), with and without -f/--force; "
                 "(d) SIGKILL before/after every mutating call of one overwrite. non-trivial = candidate is a real backup or "
                 "shares the first byte / directory holds a backup / step overwrites an existing file; distinct by input")
     run_pairs(ctx, out)
